@@ -30,7 +30,7 @@ STANDINS = os.path.join(os.path.dirname(os.path.dirname(os.path.abspath(__file__
 
 
 def plan(tier, seed):
-    return sb.plan(tier, seed, per_shard_quick=14, per_shard_thorough=450, extra={"extra_path": [STANDINS]})
+    return sb.plan(tier, seed, per_shard_quick=40, per_shard_thorough=3000, extra={"extra_path": [STANDINS]})
 
 
 # ---- (2) denotation of the cvxpy problem ---------------------------------------------------------------------
